@@ -5,7 +5,7 @@ def svg_nontrivial(cmd, inp, impl, prev):
 
 TB = "Trusted: Lean kernel (axioms propext, Classical.choice, Quot.sound only, audited per theorem), the correspondence check (sampled), the harness printers and Lean driver runtime. "
 
-PROP = dict(
+PROP = dict(search_rounds=1, 
     family="c15", session_start=None, trivial=svg_nontrivial,
     n=dict(quick=2500, thorough=15000),
     exhaustive=dict(quick=False, thorough=False),
